@@ -44,6 +44,8 @@ structure Th where
   afterKill : Bool := false      -- PKILLRET seen
   later : Array Nat := #[]       -- spontaneous status changes seen later in the window (applied after the atomic step)
   laterPid : Array Nat := #[]
+  laterReap : Array Nat := #[]   -- records whose status ANOTHER thread reaped after this window's kill() (under the library's lock the
+                                 -- kill came first; the model's timer step is taken at the window's END, so the reap is applied after it)
 deriving Repr
 
 structure S where
@@ -346,7 +348,12 @@ def handle (s : S) (ws : List String) : S × List String :=
       -- status changes that happened while the handler was running (after the kill) are applied now
       let (s, m2) := (th.later.toList.zip th.laterPid.toList).foldl
         (fun (acc : S × List String) (p : Nat × Nat) => let (s', m) := procEvent acc.1 p.2 p.1; (s', acc.2 ++ m)) (s, [])
-      (s, m1 ++ m2)
+      let (s, m3) := th.laterReap.toList.foldl
+        (fun (acc : S × List String) (r' : Nat) =>
+          let s0 := acc.1
+          let s0 := { s0 with cov := bump s0.cov "reap-during-kill-window" }
+          let (s', m) := act s0 r' none .reap none "REAP"; (s', acc.2 ++ m)) (s, [])
+      (s, m1 ++ m2 ++ m3)
     | .timer .., _ => (s, [])
     -- ---------------------------------------------------------------- status delivery
     | .idle, "CB" :: "qwait" :: rw :: more =>
@@ -392,6 +399,11 @@ def handle (s : S) (ws : List String) : S × List String :=
         | some r =>
           match getRec s r with
           | some m =>
+            -- another thread is inside the signalling-timer handler of this very record and its kill() was already made: that kill
+            -- was linearised (iv_wait_lock) BEFORE this reap; the model takes the timer step at that window's END, so defer the reap
+            match s.ths.find? (fun (t', th') => t' != tid && th'.killSys && (match th'.win with | .timer r' _ => r' == r | _ => false)) with
+            | some (t', th') => (setTh s t' { th' with laterReap := th'.laterReap.push r }, [])
+            | none =>
             if m.kq.head? != some st then div s s!"wait4 returned 0x{st} for rec{r} but the model's kernel queue is {m.kq}"
             else
               let s := { s with cov := bump s.cov (if m.waitReg && !m.dead then "reap-queued" else "reap-dropped") }
